@@ -22,22 +22,27 @@ def run(ctx):
     ctx.extra["model_sensitive_to_sniffed_reshape"] = (r.violation == "ShapeRecovered")
     if r.violation != "ShapeRecovered":
         raise tlc.MachineryError("WriteLayout with the sniffed column count should violate ShapeRecovered")
-    cfg = ("SPECIFICATION Spec\nCONSTANTS\n  Family = \"C01\"\n  MaxCurves = 40\n  NPres = %d\n  NItems = 1\n  MaxList = 0\n  Emit = TRUE\n"
-           "CONSTRAINT EmitInst\nCHECK_DEADLOCK FALSE\n" % len(roundtrip.PRES))
+    cfg = ("SPECIFICATION Spec\nCONSTANTS\n  Family = \"C01\"\n  MaxCurves = 40\n  NPres = %d\n  NItems = 1\n  MaxList = 0\n  TallRows = {%s}\n"
+           "  Emit = TRUE\nCONSTRAINT EmitInst\nCHECK_DEADLOCK FALSE\n" % (
+               len(roundtrip.PRES), "255, 256, 257, 512, 1000, 1001, 1024, 2000, 2048, 4096" if thorough else "256, 1000, 1001"))
     r = ctx.model_check("WriteInstances", cfg, label="WriteInstances family C01", workers=16, timeout=3000)
     insts = r.printed_json()
     insts.sort(key=lambda i: repr(sorted(i.items())))
     ctx.extra["model_instances"] = len(insts)
     limit = 60000 if thorough else 2500
+    tall = [i for i in insts if i["nrows"] > 101]          # always all of them
+    insts = [i for i in insts if i["nrows"] <= 101]
     if len(insts) > limit:
         insts = [insts[i] for i in sorted(rng.sample(range(len(insts)), limit))]
+    insts += tall
+    ctx.extra["tall_instances"] = len(tall)
     ctx.exhaustive = False
     events = []
     for inst in insts:
         events.append(roundtrip.data_event(inst, rng))
         ctx.evaluations += 1
         ctx.case(inst)
-    slim = [[{k: v for k, v in e.items() if k not in ("text", "opts")}] for e in events]
+    slim = [[roundtrip.slim_data(e)] for e in events]
     fails, _ = ctx.validate("Trace_RoundTrip", {"traces": slim}, timeout=3000)
     for tid, l, clause in fails:
         ev = events[tid]
